@@ -43,7 +43,7 @@ func init() {
 		Doc:      "reader protocol (functions that create an RLockFilePath file): the create is preceded by a LockExists test whose exists edge cannot reach it, it executes only where the create of the LockFilePath file is known to have succeeded, and every exit after that create releases the transient lock file (directly or by a defer)",
 		Controls: []string{"CtlRLockWithoutLock"},
 		Run:      ruleLock3})
-	Register(&Rule{ID: "R-LOCK-4", Props: []string{"C09", "C11"}, Floor: 12,
+	Register(&Rule{ID: "R-LOCK-4", Props: []string{"C09", "C11", "C20"}, Floor: 12,
 		Doc: "acquire before access, per constructor: NewHandlerForUpdate lock ≺ flock-open and lock ≺ temp; NewHandlerForRead rlock ≺ open; NewHandlerForCreate lock ≺ exclusive create — each later step executes only where the earlier one is known to have succeeded; Handler.fp is assigned only the descriptor of a successful open; a success return is dominated by the success of every required step",
 		Run: ruleLock4})
 	Register(&Rule{ID: "R-LOCK-5", Props: []string{"C09", "C19"}, Floor: 10,
